@@ -16,6 +16,7 @@ type Clause struct {
 	Label string
 	Src   string
 	Expr  CExpr
+	Def   bool // definitional axiom (defines): assumed at call sites, not checked in the body
 }
 
 type LoopContract struct {
@@ -112,7 +113,7 @@ var clauseKeywords = map[string]bool{
 	"requires": true, "ensures": true, "assumes": true, "modifies": true, "arith": true, "safety": true, "loop": true,
 	"invariant": true, "decreases": true, "let": true, "pure": true, "trusted": true, "emits": true,
 	"at": true, "maydiverge": true, "ghost": true, "fresh": true, "params": true, "holds": true,
-	"acquires": true, "releases": true, "callback": true,
+	"acquires": true, "releases": true, "callback": true, "defines": true,
 }
 
 var labelRe = regexp.MustCompile(`^\{([A-Za-z0-9_.\-]+)\}\s*(.*)$`)
@@ -234,6 +235,15 @@ func (cs *ContractSet) parseContractFile(path, pkgPath string, external bool) er
 					return fail(l, "%v", err)
 				}
 				cur.Assumes = append(cur.Assumes, Clause{Label: label, Src: src, Expr: e})
+			case "defines":
+				// definitional axiom of a pure function: names its result with uninterpreted spec functions
+				// (result == f(args)); assumed at call sites like a postcondition, not an obligation of the body.
+				label, src := splitLabel(rest)
+				e, err := parseCExpr(src)
+				if err != nil {
+					return fail(l, "%v", err)
+				}
+				cur.Ensures = append(cur.Ensures, Clause{Label: label, Src: src, Expr: e, Def: true})
 			case "requires", "ensures", "invariant":
 				label, src := splitLabel(rest)
 				e, err := parseCExpr(src)
